@@ -701,6 +701,10 @@ def evaluate_payload_template(input, context, template):
             v = k
 
         if v_is_path_or_intrinsic:
+            if not isinstance(v, str):
+                raise IntrinsicFailure(
+                    "The value of {}.$ must be a Path or an Intrinsic Function.".format(k)
+                )
             if v == "$":  # It's a path representing the root node
                 # Copy to avoid a potential circular reference. This must be a
                 # plain copy: the input is data, not a template to be evaluated.
